@@ -291,6 +291,25 @@ def handleV (ts : List String) : Option Verdict := do
   else if isKeyword n != kw then .corr s!"is_keyword {showName n}"
   else .ok)
 
+/-! ### presets of `options.rs`: `P <id> C10 <which> <options as returned by the library>` -/
+def handleP (ts : List String) : Option Verdict :=
+  match ts with
+  | which :: ts => do
+    let (o, ts) ← pOptions ts
+    if !ts.isEmpty then none else
+    let m : Option Options := match which with
+      | "quick_xml_de" => some Options.quickXmlDe
+      | "serde_xml_rs" => some Options.serdeXmlRs
+      | "quick_xml_de.derive" => some (Options.quickXmlDe.withDerive (cl!"Debug, X"))
+      | "serde_xml_rs.derive_empty" => some (Options.serdeXmlRs.withDerive [])
+      | _ => none
+    match m with
+    | none => some (.gen "unknown-preset")
+    | some m =>
+      some (if m.textIdent == o.textIdent && m.attrPrefix == o.attrPrefix && m.derive == o.derive && m.sort == o.sort then .ok
+        else .corr s!"preset {which}: model=({showName m.textIdent},{showName m.attrPrefix},{showName m.derive}) impl=({showName o.textIdent},{showName o.attrPrefix},{showName o.derive})")
+  | [] => none
+
 /-! ### C12: `X <id> C12 <input> <args> <out> OBS <exit> <stdout> <stderrNonEmpty> <fileAfter>` -/
 def pOptName : P (Option Name) := fun ts => match ts with
   | "~" :: ts => some (none, ts)
